@@ -9,6 +9,7 @@ import ZepidVerif.Model.Ipw
 import ZepidVerif.Model.Ipmw
 import ZepidVerif.Model.Ipcw
 import ZepidVerif.Model.Stochastic
+import ZepidVerif.Gen.Stoch
 namespace ZVD
 open ZV ZV.Std
 
@@ -69,15 +70,31 @@ def parsePlan_C05 (a : Args) : Except String (Stoch.Plan F) :=
     if ps.length ≠ ms.length then throw "bad-arg:lengths"
     pure (.cond ((ps.zip ms).map fun (p, m) => ⟨fun i => (m.toArray).getD i false, p⟩))
 
-/-- StochasticIPTW: numerators, weights and the marginal outcome -/
+/-- the arguments of `StochasticIPTW.fit` as the generated definition takes them: `p=` (unconditional) or `ps=` +
+    `masks=` (conditional, listing order) → (hasCond, p, ps, conditional) -/
+def parsePlanArgs (a : Args) : Except String (Bool × F × List F × List (Nat → Bool)) :=
+  match a.get? "p" with
+  | some _ => do pure (false, ← need a "p" (Carrier.parse (F := F)), [], [])
+  | none => do
+    let ps ← need a "ps" (parseList (Carrier.parse (F := F)))
+    let ms ← need a "masks" (parseLists_C05 parseBool)
+    if ps.length ≠ ms.length then throw "bad-arg:lengths"
+    pure (true, ((0 : Nat) : F), ps, ms.map fun m => let arr := m.toArray; fun i => arr.getD i false)
+
+/-- StochasticIPTW: numerators, weights and the marginal outcome **from the definition regenerated from the text of
+    `StochasticIPTW.fit`** (`Gen.stoch_iptw_fit`; `hasw=0` = no weight column was given, default 1 with `w=` all ones
+    when absent); `haw` (StochasticTMLE's clever covariate) from the hand model -/
 def opStochW (a : Args) : Except String String := do
   let l : List (Row F) ← parseRows a
   let g : Array F ← vals a "g"
   let pl ← parsePlan_C05 (F := F) a
-  let nu := l.map (Stoch.planNumer pl)
-  let ws := l.map (Stoch.stochWeight pl (look g))
+  let (hasCond, p, ps, conditional) ← parsePlanArgs (F := F) a
+  let hasW ← match a.get? "hasw" with
+    | some _ => need a "hasw" parseBool
+    | none => pure true
+  let (numer, ipw, m) := Gen.stoch_iptw_fit hasCond hasW p ps conditional l (look g)
   let hw := l.map (Stoch.haw pl (look g))
-  pure s!"ok numer={showList (showOpt sh) nu} w={showList (showOpt sh) ws} haw={showList (showOpt sh) hw} m={showOpt sh (Stoch.stochIptw pl (look g) l)}"
+  pure s!"ok numer={showList (showOpt sh) (l.map numer)} w={showList (showOpt sh) (l.map ipw)} haw={showList (showOpt sh) hw} m={showOpt sh m}"
 
 /-- IPMW: `obs=` one `;`-separated list per variable; `d=`/`n=` likewise with `_` = NaN prediction -/
 def opIpmw (a : Args) : Except String String := do
